@@ -8,6 +8,7 @@ import struct
 
 PLAYER_ATTRS_ALL = ["starting_age", "lock_civ", "food", "wood", "gold", "stone", "color", "human", "civilization"]
 PLAYER_ATTRS_NON_GAIA = ["population_cap", "allied_victory", "base_priority", "tribe_name", "string_table_name_id"]
+PLAYER_ATTRS_DEPRECATED = ["initial_camera_x", "initial_camera_y"]
 TRIGGER_ATTRS = ["name", "description", "description_stid", "display_as_objective", "short_description", "short_description_stid",
                  "display_on_screen", "description_order", "enabled", "looping", "header", "mute_objectives"]
 MESSAGE_ATTRS = ["instructions", "hints", "victory", "loss", "history", "scouts", "instructions_string_table_id",
@@ -85,7 +86,10 @@ class History:
         attrs = set(effects.attributes.get(et, []))
         if "armour_attack_class" in attrs and rng.random() < 0.85:
             # armour/attack effects need their pair (an unset pair is the library's `[]` sentinel: known finding F15)
-            kw = dict(armour_attack_class=rng.randint(0, 30), armour_attack_quantity=rng.randint(0, 200))
+            kw = dict(armour_attack_class=rng.choice([0, 1, 3, 30, 255, rng.randint(0, 255)]),
+                      armour_attack_quantity=rng.choice([0, 1, 200, 255, 32767, 32768, 65535, rng.randint(0, 65535)]))
+            if self.scn.sections["Triggers"].trigger_version < 2.5:
+                kw["armour_attack_quantity"] %= 256
             if "object_attributes" in attrs:
                 kw = {}
         try:
@@ -239,14 +243,14 @@ class History:
         pm = self.scn.player_manager
         p = rng.randint(0, 8)
         pl = pm.players[p]
-        choices = list(PLAYER_ATTRS_ALL) + (PLAYER_ATTRS_NON_GAIA + ["disabled_techs", "disabled_buildings", "disabled_units", "diplomacy"] if p > 0 else [])
+        choices = list(PLAYER_ATTRS_ALL) + (PLAYER_ATTRS_NON_GAIA + PLAYER_ATTRS_DEPRECATED + ["disabled_techs", "disabled_buildings", "disabled_units", "diplomacy"] if p > 0 else [])
         if self.vt >= (1, 40):
             choices += ["architecture_set"] + (["initial_player_view_x", "initial_player_view_y"] if True else [])
         if self.vt >= (1, 53):
             choices.append("lock_personality")
         a = rng.choice(choices)
         if a in ("food", "wood", "gold", "stone"):
-            v = rng.randint(0, 50000)
+            v = rng.choice([0, 1, 200, rng.randint(0, 50000)])
         elif a == "color":
             v = rng.randint(0, 7)
         elif a in ("lock_civ", "lock_personality", "human", "allied_victory"):
@@ -254,17 +258,19 @@ class History:
         elif a in ("civilization", "architecture_set"):
             v = rng.randint(1, 40)
         elif a == "starting_age":
-            v = rng.randint(0, 6)
+            v = rng.choice([0, 2, rng.randint(0, 6)])
         elif a == "population_cap":
-            v = rng.choice([25, 75, 200, 500])
+            v = rng.choice([0, 25, 75, 200, 500])
+        elif a in PLAYER_ATTRS_DEPRECATED:
+            v = rng.choice([0, 72, rng.randint(0, 200)])
         elif a == "base_priority":
-            v = rng.randint(0, 100)
+            v = rng.choice([0, 1, rng.randint(0, 100)])
         elif a == "tribe_name":
             v = rng.choice(STRS)[:20]
         elif a == "string_table_name_id":
-            v = rng.randint(-2, 100000)
+            v = rng.choice([0, -1, -2, rng.randint(-2, 100000)])
         elif a.startswith("initial_player_view"):
-            v = rng.randint(-1, 100)
+            v = rng.choice([0, -1, rng.randint(-1, 100)])
         elif a.startswith("disabled_"):
             v = sorted(rng.sample(range(1, 900), rng.randint(0, 5)))
         elif a == "diplomacy":
@@ -272,7 +278,11 @@ class History:
             q = rng.randrange(8)
             if q != p - 1:
                 v[q] = rng.choice([0, 1, 3])
-        setattr(pl, a, v); self._rec("set_player", p, a, v)
+        import warnings
+        with warnings.catch_warnings():
+            warnings.simplefilter("ignore")
+            setattr(pl, a, v)
+        self._rec("set_player", p, a, v)
 
     def op_active_players(self):
         n = self.rng.randint(1, 8)
@@ -379,7 +389,7 @@ def dump_managers(scn):
                 "collide_and_correct": _get(mm, "collide_and_correct"), "villager_force_drop": _get(mm, "villager_force_drop")}
     pm = scn.player_manager
     d["players"] = [{a: _get(p, a) for a in PLAYER_ATTRS_ALL + ["active", "lock_personality", "architecture_set"] +
-                     (PLAYER_ATTRS_NON_GAIA + ["disabled_techs", "disabled_buildings", "disabled_units", "diplomacy",
+                     (PLAYER_ATTRS_NON_GAIA + PLAYER_ATTRS_DEPRECATED + ["disabled_techs", "disabled_buildings", "disabled_units", "diplomacy",
                                                "initial_player_view_x", "initial_player_view_y"] if i > 0 else ["initial_player_view_x", "initial_player_view_y"])}
                     for i, p in enumerate(pm.players)]
     d["active_players"] = pm.active_players
